@@ -152,7 +152,15 @@ where
                 // The commit will fail if the generation of the value we set does not match
                 // the generation of the value that was initialized. We do not know which one
                 // is the correct one, so we just retry until we get a match.
-                if expected_generation == actual_generation {
+                //
+                // A matching generation is not enough on its own: a write may have published a
+                // newer value and invalidated this region while our (by then outdated) value was
+                // still being installed, in which case the invalidation is already behind us and
+                // nothing would ever replace the stale regional copy. Any such write updates the
+                // latest value before it invalidates, so it is visible here.
+                if expected_generation == actual_generation
+                    && self.global_state.latest_value.load().generation == expected_generation
+                {
                     // We are done - the universe did not change during initialization.
                     break;
                 }
